@@ -29,7 +29,8 @@ EXTENDS Naturals, Sequences, FiniteSets
 Interrupts == {"kbd", "sysexit", "gevent"}
 (* "nowhere": a connect to an address the name no longer points at -- nobody answers there, but that is the client's *)
 (* stale knowledge, not a fault of the environment: the call had every chance to work                              *)
-IsFault(f) == f \notin {"none", "eintr", "again", "detached", "nowhere"}
+(* "afmismatch": a socket of one address family connected to an address resolved for another -- likewise the client's doing *)
+IsFault(f) == f \notin {"none", "eintr", "again", "detached", "nowhere", "afmismatch"}
 
 CMonInit(h) == [h |-> h, socks |-> <<>>, phase |-> "idle", now |-> 0,
                 c |-> 0, kind |-> "none", ro |-> FALSE, start |-> 0,
@@ -160,7 +161,7 @@ CMonEffect(m, ev) ==
          IF ev.fault = "none" /\ Known(m, ev.s)
            THEN [m EXCEPT !.socks = [m.socks EXCEPT ![ev.s].st = "connected", ![ev.s].srv = ev.srv,
                                                     ![ev.s].last = m.start]]
-           ELSE IF ev.fault = "nowhere" THEN [m EXCEPT !.socks = Mark(m, ev.s, TRUE)]
+           ELSE IF ev.fault \in {"nowhere", "afmismatch"} THEN [m EXCEPT !.socks = Mark(m, ev.s, TRUE)]
            ELSE [m EXCEPT !.socks = Mark(m, ev.s, TRUE), !.hard = TRUE,
                           !.intr = m.intr \/ ev.fault \in Interrupts]
     [] ev.e = "send" ->
